@@ -350,6 +350,250 @@ def blocked_kinds_names():
             ("raw.poll(recv)",), ("resolve",)]
 
 
+
+# =========================================================================== L2: single thread, Condition double
+STATES = ("SHUTDOWN", "CLOSED", "LISTEN", "CONNECT", "ESTABLISHED", "DISCONNECT", "CLOSE_WAIT")
+WAIT_ACTS = ("N", "T", "S", "QI", "QDISC", "QCONNECT", "QCC", "QDM", "QUI", "D", "R")
+
+
+def init_line(st):
+    return ("k=%(k)s st=%(st)s b=%(b)d rq=%(rq)s sq=%(sq)s sb=1 rb=%(rb)d sm=%(sm)d sw=%(sw)d sc=%(sc)d sa=%(sa)d "
+            "ak=%(ak)d rc=%(rc)d rw=%(rw)d reg=%(reg)d alive=%(alive)d oth=0 term=0 sd=1 res=%(res)d pre=%(pre)d" % st)
+
+
+def base_state(k, st, variant, rq=(), sq=(), win=(1, 0, 0), ak=0, rc=0, res=0, pre=0):
+    d = dict(k=k, st=st, rq=".".join(rq), sq=".".join(sq), rb=1, sm=128, sw=win[0], sc=win[1], sa=win[2], ak=ak, rc=rc,
+             rw=1, res=res, pre=pre, variant=variant)
+    d.update({"U": dict(b=0, reg=0, alive=0), "R": dict(b=1, reg=1, alive=1), "C": dict(b=1, reg=0, alive=0)}[variant])
+    return d
+
+
+class DoubleWorld:
+    """builds the real objects for an abstract state and runs one call under a script"""
+
+    def __init__(self):
+        from sims import term_llc as T
+        self.T = T
+        self.world = T.World()
+        T.install_double(self.world)
+
+    def build(self, st):
+        import nfc.llcp
+        T = self.T
+        llc = T.make_llc()
+        llc.mac = None
+        typ = {"raw": nfc.llcp.llc.RAW_ACCESS_POINT, "ldl": nfc.llcp.LOGICAL_DATA_LINK, "dlc": nfc.llcp.DATA_LINK_CONNECTION}[st["k"]]
+        tco = llc.socket(typ)
+        T.name_conditions(tco)
+        if st["variant"] in ("R", "C"):
+            llc.bind(tco)
+        if st["variant"] == "C":
+            llc.close(tco)
+        tco.state.value = STATES.index(st["st"])
+        for name in filter(None, st["rq"].split(".")):
+            tco.recv_queue.append(T.make_pdu(name, tco))
+        for name in filter(None, st["sq"].split(".")):
+            tco.send_queue.append(T.make_pdu(name, tco))
+        tco.recv_buf, tco.send_miu = st["rb"], st["sm"]
+        if st["k"] == "dlc":
+            tco.send_win, tco.send_cnt, tco.send_ack = st["sw"], st["sc"], st["sa"]
+            tco.acks_recvd, tco.recv_confs, tco.recv_win = st["ak"], st["rc"], st["rw"]
+            if st["st"] in ("ESTABLISHED", "DISCONNECT", "CLOSE_WAIT"):
+                tco.peer = 40
+        if st["res"]:
+            llc.sap[1].snl[b"urn:nfc:sn:x"] = 17
+        if st["pre"]:
+            llc.terminate("before the call")
+        sock = nfc.llcp.Socket(llc, None)
+        sock._tco = tco
+        return llc, tco, sock
+
+    def call_fn(self, st, sock, call):
+        import nfc.llcp
+        c = call.split(":")
+        if c[0] == "send":
+            flags, n = (nfc.llcp.MSG_DONTWAIT if c[1] == "1" else 0), int(c[2])
+            if st["k"] == "dlc":
+                return lambda: sock.send(b"x" * n, flags)
+            if st["k"] == "ldl":
+                return lambda: sock.sendto(b"x" * n, 36, flags)
+            return lambda: sock.send(nfc.llcp.pdu.UnnumberedInformation(9, 1, b"x"), flags)
+        if c[0] == "poll":
+            return lambda: sock.poll(c[1], 0.5 if c[2] == "1" else None)
+        return {"recv": sock.recv, "accept": sock.accept, "connect": lambda: sock.connect(36), "listen": lambda: sock.listen(2),
+                "close": sock.close, "bind": sock.bind, "resolve": lambda: sock.resolve(b"urn:nfc:sn:x")}[c[0]]
+
+    def run(self, st, call, script):
+        import nfc.llcp
+        T = self.T
+        llc, tco, sock = self.build(st)
+        fn = self.call_fn(st, sock, call)
+        self.world.begin(llc, tco, script)
+        try:
+            r = fn()
+            if r is None:
+                out = "ok none"
+            elif isinstance(r, bool):
+                out = "ok true" if r else "ok false"
+            elif isinstance(r, int):
+                out = "ok n%d" % r
+            elif isinstance(r, nfc.llcp.Socket):
+                out = "ok sock"
+            else:
+                out = "ok data"
+        except T.Hang as h:
+            out = "hang " + str(h.cv)
+        except BaseException as e:  # noqa
+            out = "exc " + exc_name(e)
+        finally:
+            self.world.end()
+        summ = "%s:%d:%s:%s:%d:%d:%d:%d" % (
+            tco.state, tco.addr is not None, ".".join(p.name for p in tco.recv_queue), ".".join(p.name for p in tco.send_queue),
+            tco.recv_buf, getattr(tco, "acks_recvd", st["ak"]), getattr(tco, "send_cnt", st["sc"]), getattr(tco, "recv_confs", st["rc"]))
+        return list(self.world.events), out, summ
+
+
+def calls_for(k):
+    calls = ["recv", "close", "bind", "resolve", "send:0:1", "send:1:1", "poll:recv:0", "poll:recv:1", "poll:send:0", "poll:send:1",
+             "poll:bogus:0"]
+    if k != "raw":
+        calls += ["connect"]
+    if k == "ldl":
+        calls += ["send:0:300"]
+    if k == "dlc":
+        calls += ["accept", "listen", "send:0:300", "poll:acks:0", "poll:acks:1"]
+    else:
+        calls += ["poll:acks:0", "accept", "listen"]
+    return calls
+
+
+def tie_states(ck):
+    """(state, call) pairs: systematic core (exhaustive over kind x state x variant x pre x call with the dimensions a
+    call reads) + seeded random states"""
+    rng = ck.rng
+    out = []
+    for k in ("raw", "ldl", "dlc"):
+        sts = STATES if k == "dlc" else ("ESTABLISHED", "SHUTDOWN")
+        for st in sts:
+            for variant in ("U", "R"):
+                for pre in (0, 1):
+                    for call in calls_for(k):
+                        c0 = call.split(":")[0]
+                        rqs = [()]
+                        if c0 in ("recv", "accept", "connect", "close") or call.startswith("poll:recv"):
+                            rqs = [(), ("I",), ("CONNECT",), ("CC",), ("DM",), ("UI",), ("I", "I")]
+                            if st == "CLOSE_WAIT" or variant == "U":
+                                rqs.append(("DISC",))
+                        if k == "ldl":
+                            rqs = [r for r in rqs if set(r) <= {"UI"}]     # LogicalDataLink.enqueue only accepts UI PDUs
+                        if c0 == "accept" and st == "LISTEN" and variant == "U":
+                            continue        # listen() binds: a listening socket without address does not exist
+                        for rq in rqs:
+                            if c0 == "recv" and rq[:1] == ("DISC",) and st == "ESTABLISHED" and variant == "R":
+                                continue
+                            opts = [dict()]
+                            if c0 == "send" and k == "dlc":
+                                opts = [dict(win=w, sq=q) for w in ((1, 0, 0), (1, 1, 0), (0, 0, 0), (2, 1, 15)) for q in ((), ("UI",))]
+                            elif c0 == "send" or call.startswith("poll:send"):
+                                opts = [dict(sq=()), dict(sq=("UI",))]
+                            elif call.startswith("poll:acks"):
+                                opts = [dict(ak=0), dict(ak=1)]
+                            elif c0 == "recv":
+                                opts = [dict(rc=0), dict(rc=1)]
+                            elif c0 == "resolve":
+                                opts = [dict(res=0), dict(res=1)]
+                            for o in opts:
+                                out.append((base_state(k, st, variant, rq=rq, pre=pre, **o), call))
+        out.append((base_state(k, "SHUTDOWN", "C"), "close"))
+        out.append((base_state(k, "SHUTDOWN", "C"), "recv"))
+        out.append((base_state(k, "SHUTDOWN", "C", pre=1), "close"))
+    n = 6000 if ck.thorough else 500
+    names = ["I", "DISC", "CONNECT", "CC", "DM", "UI"]
+    for _ in range(n):
+        k = rng.choice(["raw", "ldl", "dlc", "dlc"])
+        st = rng.choice(STATES if k == "dlc" else ("ESTABLISHED", "SHUTDOWN"))
+        rq = tuple(rng.choice(names) if k != "ldl" else "UI" for _ in range(rng.choice([0, 0, 1, 1, 2])))
+        call = rng.choice(calls_for(k))
+        if call == "recv" and "DISC" in rq and st == "ESTABLISHED":
+            continue
+        s = base_state(k, st, "R" if (call == "accept" and st == "LISTEN") else rng.choice("UR"), rq=rq, sq=tuple("UI" for _ in range(rng.choice([0, 0, 1, 2]))),
+                       win=(rng.randrange(0, 4), rng.randrange(16), rng.randrange(16)), ak=rng.choice([0, 0, 1, 3]),
+                       rc=rng.choice([0, 0, 1]), res=rng.choice([0, 0, 1]), pre=rng.choice([0, 0, 1]))
+        out.append((s, call))
+    return out
+
+
+def tie_waits(ck, model):
+    """explore the tree of actions for every (state, call); compare with the model; judge hangs directly"""
+    dw = DoubleWorld()
+    depth = 4 if ck.thorough else 3
+    cases = []          # (request line, real line, st, call, script)
+    seen = set()
+
+    def explore(st, call, script):
+        ev, out, summ = dw.run(st, call, script)
+        key = (tuple(sorted(st.items())), call, tuple(script))
+        if key not in seen:
+            seen.add(key)
+            cases.append(("run %s call=%s script=%s" % (init_line(st), call, ".".join(script)), ",".join(ev) + "|" + out + "|" + summ,
+                          st, call, list(script), ev, out))
+        if len(ev) > len(script) and len(script) < depth:
+            point = ev[len(script)]
+            acts = ("-", "T") if point[0] == "L" else WAIT_ACTS + (("A",) if st["k"] == "dlc" else ())
+            if st["k"] == "ldl":
+                acts = tuple(a for a in acts if a[0] != "Q" or a == "QUI")
+            if call == "recv" and st["st"] == "ESTABLISHED" and st["variant"] == "R":
+                acts = tuple(a for a in acts if a != "QDISC")      # a DISC is only queued locally in CLOSE_WAIT
+            for a in acts:
+                explore(st, call, script + [a])
+
+    try:
+        for st, call in tie_states(ck):
+            explore(st, call, [])
+    finally:
+        dw.T.uninstall()
+    replies = model.ask_many([c[0] for c in cases])
+    dis = 0
+    nwait = 0
+    for (line, real, st, call, script, ev, out), rep in zip(cases, replies):
+        waits = sum(1 for e in ev if e[0] == "W")
+        nwait += waits
+        terminated_at = None
+        if st["pre"]:
+            terminated_at = -1
+        for i, e in enumerate(ev):
+            if e.split(":")[-1] == "T" and terminated_at is None:
+                terminated_at = i
+        ck.case((line,), waits > 0 or terminated_at is not None, "L2 %s %s" % (st["k"], call.split(":")[0]),
+                sample={"request": line, "impl": real} if (waits and terminated_at is not None and len(ck.samples) < 5) else None)
+        if rep != real:
+            dis += 1
+            if os.environ.get("C09_DEBUG"):
+                print("DIS", st["k"], call, st["st"], st["variant"], "pre", st["pre"], ".".join(script), "\n   M", rep, "\n   I", real)
+            ck.fail("tie:wait-structure", "model %r, implementation %r" % (rep, real), {"request": line, "model": rep, "impl": real})
+        # ---- the property itself, judged on the real objects (independent of the model)
+        if terminated_at is not None:
+            replay = {"state": st, "call": call, "script": script, "events": ev, "outcome": out}
+            name = "%s.%s" % (st["k"], call.split(":")[0])
+            if out.startswith("hang"):
+                last = ev[-1]
+                if last.split(":")[-1] == "T":
+                    ck.fail("terminate-does-not-wake-" + name, "thread waiting in %s (%s) is not notified by terminate()" % (name, last), replay)
+                else:
+                    ck.fail("waits-after-terminate-" + name,
+                            "%s reaches a wait without timeout (%s) after the link has terminated: nothing will wake it" % (name, last), replay)
+            elif out.startswith("exc") and not out.startswith("exc llcp.Error") and out != "exc ConnectRefused":
+                tail = ev[terminated_at + 1:] if terminated_at >= 0 else ev
+                if not any(e[0] == "W" and e.split(":")[-1] not in ("N", "T", "S") for e in tail):
+                    ck.fail("exc-after-terminate-%s-%s" % (name, out[4:]), "%s ended with %s although the link had terminated" % (name, out[4:]), replay)
+    ck.tie("wait structure of socket calls: model vs real objects under the Condition double", cases=len(cases),
+           disagreements=dis, exhaustive=True)
+    ck.count("L2 scheduling points that are waits", nwait)
+    return len(cases)
+
+
 def run(ck):
     ck.rule = "TODO"
+    model = Model("drv_c09")
+    tie_waits(ck, model)
     n = oracle(ck)
